@@ -365,9 +365,11 @@ def error_call_in(stmt, names=("error",)):
     return None
 
 
-def walk_ifs(fn_node, tmap, fmap):
-    """yield (path, ifstmt) for every IfStmt of the function, path = names of the enclosing case labels"""
+def walk_ifs(fn_node, tmap, fmap, want=None):
+    """yield (path, node) for every IfStmt (or every node accepted by `want`) of the function, path = names of the
+    enclosing case labels"""
     out = []
+    want = want or (lambda n: n.get("kind") == "IfStmt")
 
     def label_name(case, use_t):
         v = strip(case["inner"][0])
@@ -388,7 +390,7 @@ def walk_ifs(fn_node, tmap, fmap):
             use_t = subtree_has(cond, lambda m: m.get("kind") == "MemberExpr" and m.get("name") == "type")
             visit_switch_body(body, path, use_t)
             return
-        if k == "IfStmt":
+        if want(n):
             out.append((list(path), n))
         for c in n.get("inner", []):
             if isinstance(c, dict):
@@ -656,6 +658,40 @@ def extract_error_fn(bdir):
     except OutOfGrammar as e:
         raise TieBroken("error:clamp", "clamp left the grammar: %s" % e)
     return "\n".join(out), {"bufsize": bufsize[0], "indices": [c for _, c in exprs]}
+
+
+# ---------------------------------------------------------------------------------------------------------------
+# the index that F_INDEX / F_RINDEX compute from the operand after the guard: `i = (int)n`, `i = size - (int)n` ...
+
+INDEX_EXPRS = [("idx_index_buf", ["F_INDEX", "T_BUFFER"]), ("idx_index_str", ["F_INDEX", "T_STRING"]),
+               ("idx_index_arr", ["F_INDEX", "T_ARRAY"]), ("idx_rindex_buf", ["F_RINDEX", "T_BUFFER"]),
+               ("idx_rindex_str", ["F_RINDEX", "T_STRING"]), ("idx_rindex_arr", ["F_RINDEX", "T_ARRAY"])]
+
+
+def extract_index_exprs(bdir, tmap, fmap):
+    fn = ast_function(bdir, "src/interpret.c", "eval_instruction")
+    assigns = walk_ifs(fn, tmap, fmap, want=lambda n: n.get("kind") == "BinaryOperator" and n.get("opcode") == "=" and
+                       _is_ref(n["inner"][0], "i"))
+    out = []
+    for name, path in INDEX_EXPRS:
+        here = [n for p, n in assigns if p[:2] == path]
+        # the first assignment computes the index, the second one (`i = ...item[i]`) is the read itself
+        if len(here) < 1:
+            raise TieBroken("index-expr:" + name, "assignments to `i` under %s not found" % "/".join(path))
+        tr = Tr()
+        try:
+            ex = tr.int_expr(here[0]["inner"][1])
+        except OutOfGrammar as e:
+            raise TieBroken("index-expr:" + name, "index expression left the grammar: %s" % e)
+        # the access must use the variable just computed: `...[i]` (strings / buffers: `i = x[i]`; arrays: `&arr->item[i]`)
+        subs = walk_ifs(fn, tmap, fmap, want=lambda n: n.get("kind") == "ArraySubscriptExpr" and _is_ref(n["inner"][1], "i"))
+        if not [n for p, n in subs if p[:2] == path]:
+            raise TieBroken("index-expr:" + name, "no element access `[i]` under %s" % "/".join(path))
+        params = [p[0] for p in tr.params]
+        if sorted(params) not in (["number"], ["number", "size"], ["len", "number"], ["number", "slen"]):
+            raise TieBroken("index-expr:" + name, "unexpected operands %s" % params)
+        out.append(lean_def(name, tr, ex, "%s: `i = %s` (the element accessed is [i])" % ("/".join(path), c_text(here[0]["inner"][1])), "Int"))
+    return "\n".join(out)
 
 
 # ---------------------------------------------------------------------------------------------------------------
@@ -1145,6 +1181,7 @@ def generate_all(bdir, tvals):
         info["error_fn"] = einfo
 
     def p_explode():
+        parts.append(extract_index_exprs(bdir, tmap, fmap))
         parts.append(extract_explode(bdir))
         parts.append(extract_builder_sizes(bdir))
 
